@@ -49,7 +49,7 @@ def budget(tier):
 
 def essential_labels(tier):
     return ["op:bind_existing", "op:bind_existing_nested", "op:bind_value", "op:bind_foreign", "op:bind_foreign_other_context", "op:bind_null",
-            "op:write_through_ref", "op:write_through_original", "op:grow", "aliased_write_seen", "union_slot", "ref_inside_array", "grow_after_binding", "capi"]
+            "op:write_through_ref", "op:write_through_original", "op:grow", "aliased_write_seen", "op:bind_lookalike", "union_slot", "ref_inside_array", "grow_after_binding", "capi"]
 
 
 # --------------------------------------------------------------------------
@@ -89,7 +89,7 @@ def cases(draw, tier):
     ops = []
     for _ in range(nops):
         kind = draw(st.sampled_from(["construct", "construct", "bind_existing", "bind_existing", "bind_value", "bind_foreign", "bind_foreign",
-                                     "bind_null", "write_ref", "write_ref", "write_orig", "write_orig", "grow"]))
+                                     "bind_null", "write_ref", "write_ref", "write_orig", "write_orig", "grow", "bind_lookalike"]))
         op = {"op": kind, "i": draw(st.integers(0, 1000)), "j": draw(st.integers(0, 1000)), "via": draw(st.sampled_from(["handle", "view", "mix"]))}
         if kind == "construct":
             si = draw(st.integers(0, len(sites) - 1))
@@ -105,6 +105,8 @@ def cases(draw, tier):
                 op["container"] = True
                 op["where"] = "A"
                 op["value"] = {"shape": [2], "flat": [op["value"], tg._draw_value(draw, t, cfg)]}
+        elif kind == "bind_lookalike":
+            op["w"] = draw(assign.op_specs)
         elif kind == "bind_value":
             # the value is drawn for every possible target type lazily: keep a seed list of leaf material
             op["w"] = draw(assign.op_specs)
@@ -192,8 +194,33 @@ def fresh_value(spec, w, salt):
     raise ValueError(k)
 
 
-class World:
-    pass
+def _lookalike_ok(tspec):
+    """targets for which a convertible object of another class is easy to state: structs of scalar / string / scalar-array
+    fields, and arrays of scalars with exactly one dynamic dimension and C order"""
+    if tspec["k"] == "struct":
+        return all(ft["k"] in ("scalar", "string") or (ft["k"] == "array" and ft["item"]["k"] == "scalar") for _, ft in tspec["fields"])
+    if tspec["k"] == "array":
+        return tspec["item"]["k"] == "scalar" and len(tspec["shape"]) == 1 and tspec["shape"][0] is None
+    return False
+
+
+def _make_lookalike(tnode, val, buf):
+    import xobjects as xo
+
+    if tnode.spec["k"] == "struct":
+        fields = {f.name: f.ftype for f in tnode.cls._fields}
+        L = type("Like" + tnode.cls.__name__, (xo.Struct,), fields)
+        return L(assign.plain_arg(tnode, val), _buffer=buf)
+    item = tnode.kids[0].cls
+    n = len(val["flat"])
+    return item[max(n, 1)](val["flat"] if n else [0], _buffer=buf) if n else item[1]([0], _buffer=buf)
+
+
+def _lookalike_node(tnode, look):
+    if tnode.spec["k"] == "struct":
+        return mat.Node(tnode.spec, type(look), tnode.kids)
+    sp = dict(tnode.spec, shape=[int(look._shape[0])], name=None)
+    return mat.Node(sp, type(look), tnode.kids)
 
 
 def run_case(case):
@@ -425,6 +452,48 @@ def run_case(case):
             if wrote_through:
                 nontrivial = True
                 labels.add("rebind_after_write_through")
+        elif kind == "bind_lookalike":
+            # an object of ANOTHER class that lives in the holder's own buffer and converts to the slot's type (a struct
+            # class with the same fields under another name; a static array for a dynamic-array target): it is data,
+            # not "that very object" - a new independent object of the recorded type must be created
+            slots = [(pth, rs) for pth, rs in mat.ref_slots(spec, model) if rs["k"] == "ref" and _lookalike_ok(rs["to"])]
+            if not slots:
+                continue
+            path, rspec = slots[op["i"] % len(slots)]
+            rnode, _ = mat.node_at(node, model, path)
+            tnode = rnode.kids[0]
+            val = fresh_value(tnode.spec, op["w"], si)
+            look = sut(_make_lookalike, tnode, val, A)
+            if is_raised(look):
+                return fail("construct_raised", f"{step}: look-alike source: {look}", look.key, labels)
+            parent = sut(slot_parent, path, op["via"], op["i"])
+            if is_raised(parent):
+                return fail("reach_raised", f"{step}: {parent}", parent.key, labels)
+            mark = tr.mark()
+            r = sut(mat.obj_set, parent[0], parent[1], path[-1:], look)
+            if is_raised(r):
+                # refusing an object of another class is allowed (it is not a member of the reference's type); nothing was bound
+                labels.add("op:bind_lookalike_refused")
+                r2 = check_all(step + " (refused)")
+                if r2:
+                    return r2
+                continue
+            for k2, (p2, _, _) in list(aliases.items()):
+                if p2[: len(path)] == path:
+                    del aliases[k2]
+            mat.model_set(spec, model, path, copy.deepcopy(val))
+            h = sut(lambda: mat.obj_get(holder, node, path + [["d"]])[0])
+            if is_raised(h) or h is None:
+                return fail("bound_slot_unreadable", f"{step} slot {path}: {h}", "lookalike", labels)
+            got_offs = [o for o, s_ in tr.allocated_since(mark)]
+            if int(h._offset) == int(look._offset) or int(h._offset) not in got_offs:
+                return fail("foreign_class_object_aliased", f"{step}: slot {path} (target {tnode.cls.__name__}) bound to a {type(look).__name__} at {look._offset} of the same buffer reads an object at {h._offset}; allocate() handed out {got_offs}", "lookalike", labels)
+            if type(h).__name__ != tnode.cls.__name__:
+                return fail("referent_of_wrong_type", f"{step}: slot {path} resolves to a {type(h).__name__}", "lookalike", labels)
+            # the source stays an independent object: a write to it must not show
+            pool.append({"obj": look, "node": _lookalike_node(tnode, look), "model": copy.deepcopy(val), "where": "A"})
+            labels.add("op:bind_lookalike")
+            bound_nonnull = True
         elif kind == "write_ref":
             leaves = [(p, s) for p, s in mat.leaf_paths(spec, model) if any(x[0] == "d" for x in p)]
             if not leaves:
